@@ -37,7 +37,10 @@ def check_member(case):
     t_multi = cost.twoq_multiset(entry[3]) if entry else None
     results = []
     apis = []
-    stab = sweep.make_stabilizer(n, gens, case.get("format", "strings+sign"), case.get("graph_gid"))
+    try:
+        stab = sweep.make_stabilizer(n, gens, case.get("format", "strings+sign"), case.get("graph_gid"))
+    except Exception as e:  # noqa: BLE001
+        return [(f"{n}/{name}/class={cid}/ctor-raised", f"{n}-{name}: Stabilizer() raised {type(e).__name__} for {case['strings']}", {})], []
     apis.append(("preparation", lambda: L.sc.get_preparation_circuit(stab, name)))
     apis.append(("readout", lambda: L.sc.get_readout_circuit(sweep.make_stabilizer(n, gens, "strings+sign"), name)))
     if case.get("circuit"):
